@@ -167,6 +167,42 @@ func replayParams(c lCase, put func(sig, det string, c any)) {
 	if re := q.Encode(); !bytes.Equal(re, c.Body) {
 		put("reencode-differs "+cls, fmt.Sprintf("%x vs %x", re, []byte(c.Body)), c)
 	}
+	// the same bytes through one long-lived receiver that has parsed every earlier parameter set (known and unknown ids, all of
+	// them at once): nothing of an earlier set is left in the value
+	if paramsReused == nil {
+		paramsReused = mk()
+	}
+	rm := jt808.NewJTMessage()
+	rm.Body = exact(c.Body)
+	var rerr error
+	var re []byte
+	pn := protect(func() {
+		if rerr = paramsReused.Parse(rm); rerr == nil {
+			re = paramsReused.Encode()
+		}
+	})
+	if pn != "" || rerr != nil || !bytes.Equal(re, c.Body) {
+		put("reused-receiver-reencode-differs "+cls, fmt.Sprintf("%s %v: %x vs %x", pn, rerr, re, []byte(c.Body)), []lCase{paramsPrev, c})
+		paramsReused = mk()
+	} else if len(paramsReused.TerminalParamDetails.OtherContent) != countUnknown(c.Params) {
+		put("reused-receiver-differs "+cls, fmt.Sprintf("%d unknown parameters kept, the body holds %d", len(paramsReused.TerminalParamDetails.OtherContent), countUnknown(c.Params)), []lCase{paramsPrev, c})
+		paramsReused = mk()
+	}
+	paramsPrev = c
+}
+
+var paramsReused *model.P0x8103
+var paramsPrev lCase
+
+func countUnknown(ps []lParam) int {
+	n := 0
+	det := reflect.ValueOf(&model.TerminalParamDetails{}).Elem()
+	for _, prm := range ps {
+		if _, ok := paramField(det, prm.ID); !(ok && prm.Known) {
+			n++
+		}
+	}
+	return n
 }
 
 func bcdString(b []byte) string {
